@@ -1406,5 +1406,46 @@ func TestC14(t *testing.T) {
 			"smallest_generated": map[string]any{"document": r.orig, "defaults": dvName[r.origDv]},
 		})
 	}
+	// a body file whose content changes between two targets files read in one process (a library user
+	// running several attacks, a generator re-using its payload names): each read sees the file as it is then
+	{
+		dir := t.TempDir()
+		bf := dir + "/payload"
+		doc := "POST http://a.test/\n@" + bf + "\n\nPOST http://b.test/\n@" + bf + "\n"
+		for round, content := range []string{`{"thing":"first"}`, `{"thing":"second, and longer"}`, "", "x"} {
+			if err := os.WriteFile(bf, []byte(content), 0o644); err != nil {
+				t.Fatal(err)
+			}
+			for _, mode := range []string{"lazy", "eager"} {
+				tr := vegeta.NewHTTPTargeter(strings.NewReader(doc), []byte("DEFAULT"), nil)
+				var got []vegeta.Target
+				var err error
+				if mode == "eager" {
+					got, err = vegeta.ReadAllTargets(tr)
+				} else {
+					for i := 0; i < 2 && err == nil; i++ {
+						var tg vegeta.Target
+						if err = tr(&tg); err == nil {
+							got = append(got, tg)
+						}
+					}
+				}
+				R.Eval(1)
+				R.Trans(len(got) + 1)
+				R.Distinct(fmt.Sprint("bodyfile", round, mode))
+				ok := err == nil && len(got) == 2
+				for _, tg := range got {
+					ok = ok && string(tg.Body) == content
+				}
+				if !ok {
+					var bodies []string
+					for _, tg := range got {
+						bodies = append(bodies, string(tg.Body))
+					}
+					R.Violation("http:"+mode+":body-file-content-of-an-earlier-read", map[string]any{"round": round, "file_holds": content, "targets_got_bodies": bodies, "error": fmt.Sprint(err)})
+				}
+			}
+		}
+	}
 	R.Finish(t)
 }
